@@ -13,9 +13,9 @@ PADDING_ARTEFACTS = {"too_many_technicians", "too_many_agents"}
 
 def tau_for(case):
     name, cfg = case["env"], case["cfg"]
-    if name == "cvrptw" and not (cfg.get("scale") and case["src"] == "gen"):
+    if name == "cvrptw" and not cfg.get("scale"):
         return 2e-3  # unscaled times/distances are O(100)
-    return 1e-4
+    return 1e-4  # unit-square lengths, normalised loads, scaled (max_time = 1) CVRPTW times - generator or hand-built
 
 
 # MCP reports `done` with shape [B, B] (broadcast of i [B] against n_sets_to_choose [B, 1]); TorchRL-mode stepping
@@ -65,6 +65,11 @@ def play(case, ctx, keep_states=False, cap_factor=1):
                        what=f"episode_{stepping}|{case['env']}")
     else:
         ep = ctx.guard(run_episode, env, inst, modes, streams, cap, keep_states, what=f"episode|{case['env']}")
+    if case["env"] == "mdcpdp" and ep.td0 is not None and "current_depot" in ep.td0.keys():
+        # the depot the reset state names as the current one (drawn at reset under start_mode="random"): handed to
+        # the oracle together with the instance (vf.oracles.routing.judge_mdcpdp)
+        for b in range(B):
+            insts[b]["start_depot"] = int(ep.td0["current_depot"][b].reshape(-1)[0])
     return spec, env, inst, insts, ep
 
 
@@ -95,3 +100,23 @@ def constraint_bit(ep, b, has_depot):
                 return True
         seen.add(int(ep.actions[t][b]))
     return False
+
+
+def stepwise_reward_check(ctx, name, sl, ep, b, makespan, det):
+    """FJSPEnv / JSSPEnv(stepwise_reward=True): FJSPEnv._step documents the step reward as "the change in the calculated
+    lower bounds" - reward_t = -(max_o LB_t(o) - max_o LB_{t-1}(o)) with LB_0 = td0["lbs"] and LB(o) = the actual finish
+    time once o is scheduled - so the rewards of a completed episode telescope to -(makespan - max_o LB_0(o)), whatever
+    waits and post-finish padding steps it contains.  `makespan` comes from the oracle (instance + actions), the initial
+    bound is read from the reset state.  Needs an episode recorded with keep_states.  Tolerance: policy of DESIGN 2.4 on
+    the float32 terms (step rewards, makespan, initial bound)."""
+    rs = [float(s["reward"].reshape(len(ep.dones[0]), -1)[b, 0]) for s in ep.states]
+    lb0 = float(ep.td0["lbs"][b].double().max())
+    total, want = sum(rs), -(float(makespan) - lb0)
+    terms = sum(abs(r) for r in rs) + abs(float(makespan)) + abs(lb0)
+    if abs(total - want) > 1e-5 * (1.0 + terms):
+        ctx.violation(f"{name}|{sl}|stepwise_rewards_do_not_telescope",
+                      f"row {b}: step rewards sum to {total}, -(makespan {makespan} - initial lower bound {lb0}) = {want}",
+                      {**det, "step_rewards": rs, "initial_lower_bound": lb0})
+    if any(r != 0 for r in rs):
+        ctx.event("stepwise:row_with_nonzero_step_rewards")
+    return rs
